@@ -4,9 +4,20 @@ Every verdict on the implementation's output comes from Lean: `checkPlan` (prove
 the spec, `plan_checker`) on the returned plan and objective, and the exact optimum `minRolls`
 (proved to be the true minimum, `cs_optimum_correct`).  The dual vectors the implementation
 priced are additionally pushed through the verified `dualFeasible`/`dualBound` (`dual_bound`):
-that is solve_cg's own lower-bound argument, certified per instance.  solve_cg is also mirrored
-(Solvor/Cut/Mirror.lean, exact rationals): the mirror's plan and duals go through the same verified
-checkers, and its returned (status, plan) is compared with the implementation's (R_trace).
+that is solve_cg's own lower-bound argument, certified per instance.
+
+Both functions are mirrored in exact rationals (Solvor/Cut/Mirror.lean, MirrorBp.lean).  For the
+mirrors there are for-all-input theorems (`cg_mirror_valid`, `bp_status_rule`,
+`master_lp_value_is_dual_value`) and theorems with decidable side conditions
+(`cg_mirror_optimal_of_duals`, `bp_mirror_optimal_of_duals`); the driver evaluates the side
+conditions on every explored input, so each such OPTIMAL answer is *proved* minimal for that
+input.  R_trace: the mirror's returned (status, plan) equals the implementation's; for solve_bp it
+is not applied to runs in which the mirror met a tie that the code resolves with a bare `>` on
+doubles (`fracTie`/`popTie`: rounding noise decides, measured ~0.3 % of those differ).
+
+Failures are shrunk structurally (drop piece types / rows / columns, lower demands, width, sizes)
+keeping a candidate only if the same class still fails; the minimised case goes into the replay
+(`shrunk`) and is proposed for the corpus in the evidence notes.
 """
 from __future__ import annotations
 
@@ -16,10 +27,12 @@ from pool import err_kind, run_pool
 AREAS = ["Cut"]
 LEVEL = "proof"
 ASSUMPTIONS = [
-    "C17: nothing is proved about the search itself (DESIGN [S] `master-LP mirror certifies` is open; solve_bp's tree "
-    "search is not modelled); the property is decided on the implementation's returned plan, objective and status by "
-    "the verified checker and the proved exact optimum",
-    "C17: the solve_cg mirror computes in exact rationals with the code's eps comparisons, the code in IEEE doubles",
+    "C17: that the simplex of the master LP reaches an optimum is not proved (DESIGN [S] `master-LP mirror certifies`: "
+    "proved are the row-space invariant `LP value = duals . d` and everything that does not need LP optimality); the "
+    "property is decided on the implementation's returned plan, objective and status by the verified checker and the "
+    "proved exact optimum",
+    "C17: the solve_cg / solve_bp mirrors compute in exact rationals with the code's eps comparisons, the code in IEEE "
+    "doubles; solve_bp's R_trace is skipped on runs with a float-fragile tie (detected in the mirror)",
     "C17: dual vectors are observed by wrapping the pricing call (knapsack_pricing / the custom pricing function); "
     "they only feed the supporting dual-bound certificate, never a verdict",
 ]
@@ -33,9 +46,10 @@ RULE = ("cutting-stock instances (roll width 5-20, 1-4 piece sizes <= width with
         "by canonical (function, instance, options)")
 # per-call wall-clock limit.  solve_bp is called with max_nodes <= 100 on the generated instances
 # (<= 1 s per call on the repaired code, solve_cg and the exact optimum take milliseconds), so
-# hitting it means the call did >= 15x the work any legitimate run needs; a call that hits it is
-# re-run with 4x the limit after the pool has drained, and reported only if it times out again.
-TIMEOUT = 15.0
+# hitting it means the call did >= 10x the work any legitimate run needs; a call that hits it is
+# re-run alone (pool drained) with limit CONFIRM, and reported only if it times out again.
+TIMEOUT = 10.0
+CONFIRM = 12.0  # limit of the confirming re-run (pool drained, at most 6 calls at a time)
 USABLE = ("OPTIMAL", "FEASIBLE")
 
 
@@ -211,14 +225,45 @@ def to_request(case, out):
 # comparison
 # ---------------------------------------------------------------------------
 
-def judge(ctx, case, out, reply):
+def rprop_failures(case, out, reply):
+    """Pure: the clauses of R_prop that fail on (case, implementation outcome, model reply), as
+    [(class, what)].  Used by `judge` (reporting) and by the shrinker (same class must still fail)."""
+    fails = []
+    opt, plan_ok, parts, rolls = reply[:4]
+    tag = ":max_iter" if "max_iter" in case["opts"] else ""
+    excluded = case["mode"] == "cols" and not case.get("init_feasible", True)
+    if out[0] == "timeout":
+        return [("timeout", f"no result within {TIMEOUT:.0f} s and, re-run, within {CONFIRM:.0f} s "
+                            f"(max_nodes={case['opts'].get('max_nodes', 10000)}; the exact optimum takes the "
+                            "model < 1 s)")]
+    if out[0] != "ok":
+        return [] if excluded else [("raises:" + err_kind(out), f"valid instance raised: {out[1][:200]}")]
+    r = out[1]
+    st = r["status"]
+    if not r["demands_unchanged"]:
+        fails.append(("input_modified", "the demands list was modified"))
+    if st in USABLE:
+        if r["sol"] is None or r["sol"] == "non-integer-count":
+            fails.append(("usable_without_plan", f"status {st} with solution {r['sol']!r}"))
+        elif not plan_ok:
+            f_ok, c_ok, o_ok = parts
+            if not f_ok:
+                fails.append(("pattern_not_admissible" + tag,
+                              "a pattern of the plan does not fit the roll / is not a column of the instance"))
+            if not c_ok:
+                fails.append(("demand_missed" + tag,
+                              f"status {st} but the verified checker finds an unmet demand (plan {r['sol']})"))
+            if not o_ok:
+                fails.append(("objective_not_rolls" + tag,
+                              f"objective {r['obj_repr']} is not the number of rolls used ({rolls})"))
+        elif opt is not None and st == "OPTIMAL" and rolls != opt and rolls > opt:
+            fails.append(("optimal_not_minimal" + tag,
+                          f"status OPTIMAL with {rolls} rolls; the proved minimum is {opt}"))
+    return fails
+
+
+def judge(ctx, case, out, reply, extra=None):
     fn = case["fn"]
-
-    def fail(function, klass, what, rep):
-        # count every failing clause by class, also beyond the cap on written replays
-        ctx.count(f"fail:{function}:{klass}")
-        return ctx.fail(function, klass, what, rep)
-
     rep = {"case": case, "impl": out, "model": reply}
     opt, plan_ok, parts, rolls, dual, mirror = reply
     tag = ":max_iter" if "max_iter" in case["opts"] else ""
@@ -226,18 +271,19 @@ def judge(ctx, case, out, reply):
     ctx.count("mode:" + case["mode"] + (":excluded_init" if excluded else "") + tag)
     canon = [fn, case["mode"], case["W"], case["sizes"], case["demands"], case["cols"], case["init"],
              sorted(case["opts"].items())]
+    for klass, what in rprop_failures(case, out, reply):
+        # count every failing clause by class, also beyond the cap on written replays
+        ctx.count(f"fail:{fn}:{klass}")
+        more = (extra or {}).get(klass)
+        ctx.fail(fn, klass, what, {**rep, **({"shrunk": more} if more else {})})
     if out[0] == "timeout":
         ctx.count("timeouts")
-        fail(fn, "timeout", f"no result within {TIMEOUT:.0f} s and, re-run, within {4 * TIMEOUT:.0f} s (max_nodes={case['opts'].get('max_nodes', 10000)}; the exact optimum takes the model < 1 s)", rep)
         ctx.case(canon, False)
         return
     if out[0] != "ok":
-        kind = err_kind(out)
-        ctx.count("raises:" + kind)
+        ctx.count("raises:" + err_kind(out))
         if excluded:
             ctx.count("excluded_region_hits")
-        else:
-            fail(fn, "raises:" + kind, f"valid instance raised: {out[1][:200]}", rep)
         if mirror is not None:
             mirror_check(ctx, case, out, mirror, opt)
         ctx.case(canon, False)
@@ -245,33 +291,14 @@ def judge(ctx, case, out, reply):
     r = out[1]
     st = r["status"]
     ctx.count(f"status:{fn}:{st}")
-    if not r["demands_unchanged"]:
-        fail(fn, "input_modified", "the demands list was modified", rep)
-    if st in USABLE:
-        if r["sol"] is None or r["sol"] == "non-integer-count":
-            fail(fn, "usable_without_plan", f"status {st} with solution {r['sol']!r}", rep)
-        elif not plan_ok:
-            f_ok, c_ok, o_ok = parts
-            if not f_ok:
-                fail(fn, "pattern_not_admissible" + tag,
-                         "a pattern of the plan does not fit the roll / is not a column of the instance", rep)
-            if not c_ok:
-                fail(fn, "demand_missed" + tag,
-                         f"status {st} but the verified checker finds an unmet demand (plan {r['sol']})", rep)
-            if not o_ok:
-                fail(fn, "objective_not_rolls" + tag,
-                         f"objective {r['obj_repr']} is not the number of rolls used ({rolls})", rep)
-        else:
-            ctx.count("cert_checked_impl")
-            if opt is None or rolls < opt:
-                raise Infra(f"checker accepted a plan with {rolls} rolls below the proved optimum {opt}: {case}")
-            if st == "OPTIMAL" and rolls != opt:
-                fail(fn, "optimal_not_minimal" + tag,
-                         f"status OPTIMAL with {rolls} rolls; the proved minimum is {opt}", rep)
-            if st == "OPTIMAL" and rolls == opt:
-                ctx.count("optimal_confirmed")
-            if st == "FEASIBLE":
-                ctx.count("feasible_is_minimal" if rolls == opt else "feasible_above_minimum")
+    if st in USABLE and isinstance(r["sol"], list) and plan_ok:
+        ctx.count("cert_checked_impl")
+        if opt is None or rolls < opt:
+            raise Infra(f"checker accepted a plan with {rolls} rolls below the proved optimum {opt}: {case}")
+        if st == "OPTIMAL" and rolls == opt:
+            ctx.count("optimal_confirmed")
+        if st == "FEASIBLE":
+            ctx.count("feasible_is_minimal" if rolls == opt else "feasible_above_minimum")
     if dual is not None:
         feas, bound = dual
         if not feas:
@@ -339,29 +366,166 @@ def mirror_check(ctx, case, out, mirror, opt):
         ctx.tdiv(case["fn"], {"case": case, "impl": got, "mirror": want})
 
 
-def run_cases(ctx, cases):
+# ---------------------------------------------------------------------------
+# shrinking (structural; a candidate is kept only if the SAME class still fails)
+# ---------------------------------------------------------------------------
+
+def _fix_cols(case):
+    """Normalise a set-covering case after a structural edit (dedupe, init first, flag)."""
+    cols = []
+    for c in case["init"] + case["cols"]:
+        if c not in cols:
+            cols.append(c)
+    case["cols"] = cols
+    m = len(case["demands"])
+    case["init_feasible"] = all(d == 0 or any(c[i] > 0 for c in case["init"]) for i, d in enumerate(case["demands"])) \
+        and m > 0
+    return case
+
+
+def candidates(case):
+    """Smaller cases, most aggressive first: drop a piece type / row / column, halve or decrement a
+    demand, narrow the roll, shorten a piece."""
+    import copy
+    d = case["demands"]
+    n = len(d)
+    out = []
+    if case["mode"] == "cs":
+        for i in range(n):
+            if n > 1:
+                c = copy.deepcopy(case)
+                del c["sizes"][i], c["demands"][i]
+                out.append(c)
+        for i in range(n):
+            for nd in sorted({0, d[i] // 2, d[i] - 1}):
+                if 0 <= nd < d[i]:
+                    c = copy.deepcopy(case)
+                    c["demands"][i] = nd
+                    out.append(c)
+        if case["W"] - 1 >= max(case["sizes"]) and case["W"] > 1:
+            c = copy.deepcopy(case)
+            c["W"] -= 1
+            out.append(c)
+        for i in range(n):
+            if case["sizes"][i] > 1:
+                c = copy.deepcopy(case)
+                c["sizes"][i] -= 1
+                out.append(c)
+    else:
+        for i in range(n):
+            if n > 1:
+                c = copy.deepcopy(case)
+                del c["demands"][i]
+                c["cols"] = [[v for k, v in enumerate(col) if k != i] for col in c["cols"]]
+                c["init"] = [[v for k, v in enumerate(col) if k != i] for col in c["init"]]
+                ini = []
+                for col in c["init"]:
+                    if col not in ini:
+                        ini.append(col)
+                c["init"] = ini
+                out.append(_fix_cols(c))
+        for col in case["cols"]:
+            c = copy.deepcopy(case)
+            c["cols"] = [x for x in c["cols"] if x != col]
+            c["init"] = [x for x in c["init"] if x != col]
+            if c["init"]:
+                out.append(_fix_cols(c))
+        for i in range(n):
+            for nd in sorted({0, d[i] // 2, d[i] - 1}):
+                if 0 <= nd < d[i]:
+                    c = copy.deepcopy(case)
+                    c["demands"][i] = nd
+                    out.append(_fix_cols(c))
+    return out
+
+
+def evaluate(cases, timeout):
+    """Failure classes of each case on the current tree (implementation + model)."""
+    outs = run_pool(impl, cases, timeout=timeout)
+    replies = Driver("Cut").run([to_request(c, o) for c, o in zip(cases, outs)], chunks=8)
+    res = []
+    for c, o, rp in zip(cases, outs, replies):
+        if rp and rp[0] == "error":
+            res.append(set())
+        else:
+            res.append({k for k, _ in rprop_failures(c, o, rp)})
+    return res
+
+
+def shrink(case, klass, budget_s=40.0, max_rounds=60):
+    import time
+    t0 = time.time()
+    cur, history = case, []
+    for _ in range(max_rounds):
+        if time.time() - t0 > budget_s:
+            history.append("time budget exhausted")
+            break
+        cands = candidates(cur)
+        if not cands:
+            break
+        # a slow candidate is simply not taken, except when the time-out itself is the class
+        res = evaluate(cands, TIMEOUT if klass == "timeout" else 4.0)
+        nxt = next((c for c, ks in zip(cands, res) if klass in ks), None)
+        if nxt is None:
+            break
+        history.append({k: nxt[k] for k in ("W", "sizes", "demands", "cols", "init") if nxt[k] != cur[k]})
+        cur = nxt
+    return {"case": cur, "steps": len([h for h in history if isinstance(h, dict)]), "history": history[-12:]}
+
+
+def run_cases(ctx, cases, do_shrink=True):
     outs = run_pool(impl, cases, timeout=TIMEOUT)
-    # a time-out is confirmed by running the call again on a quiet machine with 4x the limit
-    # (DESIGN §2.4); only a repeated time-out is reported
+    # a time-out is confirmed by running the call again on a quiet machine (limit CONFIRM)
+    # (DESIGN §2.4); only a repeated time-out is reported.  At most 6 (quick) / 18 (thorough) are
+    # re-run; the others are counted but not reported.
     slow = [i for i, o in enumerate(outs) if o[0] == "timeout"]
     if slow:
         ctx.count("timeouts_first_pass", len(slow))
-        again = run_pool(impl, [cases[i] for i in slow], timeout=4 * TIMEOUT, procs=4)
-        for i, o in zip(slow, again):
+        keep = slow[: (6 if ctx.tier == "quick" else 18)]
+        again = run_pool(impl, [cases[i] for i in keep], timeout=CONFIRM, procs=6)
+        for i, o in zip(keep, again):
             outs[i] = o
+        for i in slow[len(keep):]:
+            outs[i] = ("skipped", "timed out in the first pass, not re-run")
+            ctx.count("timeouts_not_rerun")
     reqs = [to_request(c, o) for c, o in zip(cases, outs)]
     replies = Driver("Cut").run(reqs, chunks=12)
-    for c, o, rp in zip(cases, outs, replies):
+    for c, rp in zip(cases, replies):
         if rp and rp[0] == "error":
             raise Infra(f"model rejected request: {rp} for {c}")
-        judge(ctx, c, o, rp)
+    # shrink the first failure of each (function, class) that would be reported (at most 3 per run)
+    extras, seen = {}, set()
+    import time
+    t0, total_budget = time.time(), (15.0 if ctx.tier == "quick" else 150.0)
+    if do_shrink:
+        for i, (c, o, rp) in enumerate(zip(cases, outs, replies)):
+            for klass, _ in ([] if o[0] == "skipped" else rprop_failures(c, o, rp)):
+                key = (c["fn"], klass)
+                left = total_budget - (time.time() - t0)
+                if key in seen or len(seen) >= 3 or ctx.known_match(c["fn"], klass) is not None or left < 3:
+                    continue
+                if klass == "timeout" and ctx.tier == "quick":
+                    continue  # every round costs a full time-out; thorough tier only
+                seen.add(key)
+                sh = shrink(c, klass, budget_s=min(left, 60.0 if klass == "timeout" else 15.0))
+                extras.setdefault(i, {})[klass] = sh
+                if sh["steps"]:
+                    ctx.notes.append(f"minimised {c['fn']}/{klass} (proposed for corpus/C17): "
+                                     f"{ {k: sh['case'][k] for k in ('mode', 'W', 'sizes', 'demands', 'cols', 'init', 'opts')} }")
+    for i, (c, o, rp) in enumerate(zip(cases, outs, replies)):
+        if o[0] != "skipped":
+            judge(ctx, c, o, rp, extras.get(i))
     h = ctx.cov["histogram"]
     for k in ("cert_checked_impl", "cert_checked_model", "r_trace_agree", "mirror_optimal_by_theorem",
-              "mirror_optimal_side_condition_open", "timeouts", "excluded_region_hits",
+              "bp_mirror_optimal_by_theorem", "mirror_optimal_side_condition_open",
+              "bp_mirror_optimal_side_condition_open", "r_trace_skipped_float_tie:agree",
+              "r_trace_skipped_float_tie:differ", "timeouts", "excluded_region_hits",
               "dual_bound_checked", "optimal_certified_by_impl_duals"):
         ctx.cov[k] = h.get(k, 0)
-    ctx.cov["missing_theorems"] = ["cg_mirror_certifies ([S]: the solve_cg mirror returns a valid plan and a "
-                                   "dual-feasible vector on every input) - checked per instance instead"]
+    ctx.cov["missing_theorems"] = ["master-LP mirror certifies ([S]: the simplex mirror reaches an LP optimum / returns "
+                                   "an eps-feasible x on every input) - primal side checked per instance by checkPlan; "
+                                   "the dual side is proved (master_lp_value_is_dual_value) up to dual feasibility, "
+                                   "which the driver decides per input"]
 
 
 def run(ctx, budget):
@@ -386,4 +550,4 @@ def run(ctx, budget):
 
 def replay(ctx, body):
     ctx.cov["rule"] = RULE
-    run_cases(ctx, [body["case"]])
+    run_cases(ctx, [body["case"]], do_shrink=False)
